@@ -371,6 +371,9 @@ pub fn assemble_forced(prog: &Program, forced: Option<&HashMap<usize, usize>>) -
 
     // ---- layout (R-LAYOUT) -----------------------------------------------------------------
     let mut place: Vec<(usize, usize, usize)> = Vec::with_capacity(n);
+    // forced mode: directives whose amount is only known from the layout itself take the position the
+    // assembler claims for the next item (key n + i) and are re-evaluated once all symbols have their values
+    let mut late: Vec<(usize, usize, usize)> = Vec::new(); // (item, cursor before, cursor after)
     let mut cur_bank = 0usize;
     let mut surv: HashMap<usize, Vec<Match>> = HashMap::new();
     let mut data_sizes: HashMap<usize, Vec<usize>> = HashMap::new();
@@ -467,7 +470,14 @@ pub fn assemble_forced(prog: &Program, forced: Option<&HashMap<usize, usize>>) -
                     None => return reject(i, "res-range", v.to_string()),
                 },
                 Ok(_) => return reject(i, "res-type", ""),
-                Err(_) => return RefResult::Invalid("#res amount not evaluable before layout".into()),
+                Err(_) => match forced.and_then(|f| f.get(&(n + i))) {
+                    Some(next) if n_bankdefs == 0 && *next >= before => {
+                        size = *next - before;
+                        late.push((i, before, *next));
+                    }
+                    Some(next) if n_bankdefs == 0 => return reject(i, "directive-not-a-fixed-point", format!("position {} before, {} claimed after", before, next)),
+                    _ => return RefResult::Invalid("#res amount not evaluable before layout".into()),
+                },
             },
             Item::Align(e) => match eval_pre(e, &ctxs[i], &values) {
                 Ok(V::Int { v, .. }) => match v.to_usize() {
@@ -483,7 +493,14 @@ pub fn assemble_forced(prog: &Program, forced: Option<&HashMap<usize, usize>>) -
                     None => return reject(i, "align-range", v.to_string()),
                 },
                 Ok(_) => return reject(i, "align-type", ""),
-                Err(_) => return RefResult::Invalid("#align amount not evaluable before layout".into()),
+                Err(_) => match forced.and_then(|f| f.get(&(n + i))) {
+                    Some(next) if n_bankdefs == 0 && *next >= before => {
+                        size = *next - before;
+                        late.push((i, before, *next));
+                    }
+                    Some(next) if n_bankdefs == 0 => return reject(i, "directive-not-a-fixed-point", format!("position {} before, {} claimed after", before, next)),
+                    _ => return RefResult::Invalid("#align amount not evaluable before layout".into()),
+                },
             },
             Item::Addr(e) => match eval_pre(e, &ctxs[i], &values) {
                 Ok(V::Int { v, .. }) => {
@@ -503,7 +520,15 @@ pub fn assemble_forced(prog: &Program, forced: Option<&HashMap<usize, usize>>) -
                     continue;
                 }
                 Ok(_) => return reject(i, "addr-type", ""),
-                Err(_) => return RefResult::Invalid("#addr target not evaluable before layout".into()),
+                Err(_) => match forced.and_then(|f| f.get(&(n + i))) {
+                    Some(next) if n_bankdefs == 0 => {
+                        late.push((i, before, *next));
+                        place.push((bi, before, 0));
+                        banks[bi].cursor = *next;
+                        continue;
+                    }
+                    _ => return RefResult::Invalid("#addr target not evaluable before layout".into()),
+                },
             },
         }
         place.push((bi, before, size));
@@ -588,6 +613,37 @@ pub fn assemble_forced(prog: &Program, forced: Option<&HashMap<usize, usize>>) -
                 Err(er) => reject(*i, "constant-error", format!("{:?}", er)),
                 Ok(_) => RefResult::Invalid("constant evaluates late".into()),
             };
+        }
+    }
+
+    // ---- forced mode: the late directives must evaluate to the amounts that were claimed for them ----------
+    for (i, before, after) in &late {
+        let c = Ctx { prog, values: &values, declared: &declared };
+        let empty = HashMap::new();
+        let a = addr_of(*i);
+        let lk = |nm: &str| c.lookup(&ctxs[*i], &a, nm);
+        let env = Env { vars: &empty, lookup: Some(&lk) };
+        let (e, kind) = match &prog.items[*i] {
+            Item::Res(e) => (e, 0),
+            Item::Align(e) => (e, 1),
+            Item::Addr(e) => (e, 2),
+            _ => continue,
+        };
+        let unit = banks[0].unit;
+        let want: Option<usize> = match eval(e, &env) {
+            Ok(V::Int { v, .. }) => match kind {
+                0 => v.to_usize().map(|k| before + k * unit),
+                1 => v.to_usize().filter(|k| *k != 0).map(|k| {
+                    let excess = before % k;
+                    if excess != 0 { before + k - excess } else { *before }
+                }),
+                _ => v.to_usize().map(|k| k * unit),
+            },
+            Err(EvalErr::Unspecified(w)) => return RefResult::Invalid(w.to_string()),
+            _ => None,
+        };
+        if want != Some(*after) {
+            return reject(*i, "directive-not-a-fixed-point", format!("the final symbol values put the next item at bit {:?}, the layout has it at bit {}", want, after));
         }
     }
 
